@@ -203,6 +203,10 @@ Definition decode_t32_bcond (w : Z) : Z :=
 
 (* A32 modified immediate: ARMExpandImm(imm12) = ROR(ZeroExtend(imm12<7:0>), 2*imm12<11:8>) *)
 Definition arm_expand_imm (imm12 : Z) : Z := ror32 (imm12 mod 256) (2 * ((imm12 / 256) mod 16)).
+(* A32 ADR (A1: ADD form, bit 23; A2: SUB form, bit 22): imm32 = ARMExpandImm(imm12), imm12 at `shift` (0 in the ISA) *)
+Definition decode_a32_adr (f : fmt) (w : Z) : Z :=
+  let imm := arm_expand_imm ((w / 2 ^ shift f) mod 4096) in
+  if (bitz w 22 =? 1) && (bitz w 23 =? 0) then - imm else imm.
 (* A32 U-bit formats: offset = (U ? + : -) imm *)
 Definition decode_a32_u23 (f : fmt) (w : Z) : Z :=
   let imm := field_raw f w in if bitz w 23 =? 1 then imm else - imm.
